@@ -1,4 +1,5 @@
 from .runner import M
+from . import C35 as _T35
 
 NODE = "src/allmydata/immutable/downloader/node.py"
 SHARE = "src/allmydata/immutable/downloader/share.py"
@@ -201,4 +202,12 @@ MUTANTS = [
     M("vanish-satisfy-data-block", SHARE,
       "    def _satisfy_data_block(self, segnum, observers):", "    def _satisfy_data_blockX(self, segnum, observers):",
       "ANALYSIS-ERROR"),
+    # ---- added after seeded change C02-I (and C35-I): set_hashes refactored into overlay-and-commit / into helper methods.
+    # The faithful refactors must be silent, the slips are decided by the adopted C35 rules on the journal view.
+    M("benign-set-hashes-overlay-and-commit", _T35.F, _T35.SET_HASHES_REGION, _T35.OV_OK, None),
+    M("benign-set-hashes-helpers", _T35.F, _T35.SET_HASHES_TRY, _T35.HP_OK, None),
+    M("overlay-conflicting-root-committed", _T35.F, _T35.SET_HASHES_REGION, _T35.OV_SLIP, "C02.8.3"),
+    M("overlay-root-conflict-passed-over", _T35.F, _T35.SET_HASHES_REGION, _T35.OV_ROOT_EXEMPT, "C02.8.3"),
+    M("overlay-committed-before-last-rejection", _T35.F, _T35.SET_HASHES_REGION, _T35.OV_COMMIT_EARLY, "C02.8.1"),
+    M("helper-journal-entries-returned-at-the-end", _T35.F, _T35.SET_HASHES_TRY, _T35.HP_SLIP, "C02.8.1"),
 ]
